@@ -45,7 +45,17 @@ def run(ctx):
         if res["status"] == "ok":
             stats = recompute_stats(case) if res.get("cr") is not None else {}
             orc.oracle_c04(ctx, case, res, fp.failer(ctx, case), stats)
-    fp.explore(ctx, drv, 600 if ctx.tier == "quick" else 3000, per_case, graph_corr=False, mat_corr=True)
+    def gen(rng, i):
+        if i % 10 == 7:
+            # ranges a fraction of a percent apart meeting where parameters must be equal, calibrated on small magnitudes
+            from .. import gen_models as gm
+            mb, info = gm.gen_near_equal(rng)
+            data = gm.random_inputs(mb, rng, n=rng.randint(1, 2), scale=rng.choice([0.003, 0.0004, 0.02, 1.0]))
+            cfg = pl.UNIFORM[rng.choice(["a16w8", "a16w8", "a8w8", "a8sw8t"])]
+            cmds = [{"k": "add", "regex": ".*", "operation": "*", "cfg": cfg, "alg": "min_max_uniform_quantize"}]
+            return fp.Case(mb, info, cmds=cmds, data=data, desc=[("near-equal", ".*", "*", cfg["act"]["bits"])])
+        return fp.gen_case(rng, i)
+    fp.explore(ctx, drv, 600 if ctx.tier == "quick" else 3000, per_case, gen=gen, graph_corr=False, mat_corr=True)
     drv.close()
     return common.finish(ctx)
 
